@@ -268,7 +268,7 @@ pub fn profile(name: &str, tier: Tier) -> Option<Profile> {
             p.p_same_config = 0.6;
             p.dump_every_op = true;
             // "changing its metric" is one of the ops that must not touch the other indexes
-            p.p_prepare = 0.15;
+            p.p_prepare = 0.3;
             p.empty_prepare = 0.3;
             p.probes = 10;
             p.later_ops.clear = 4;
